@@ -753,7 +753,10 @@ class World:
                             f'to_dict() raised {e!r}')
         self.stats['oracle_checks'] += 1
         if mode == 'file':
-            path = f'/sim/lens-{self.fs.writes}.json'
+            # a fresh path, or one of two paths that are written again and
+            # again (a later, shorter file over an earlier, longer one)
+            path = f'/sim/lens-{self.fs.writes}.json' if 'slot' not in op \
+                else f'/sim/slot-{op["slot"]}.json'
             try:
                 with self.fs.mounted(), quiet(), warnings.catch_warnings():
                     warnings.simplefilter('ignore')
@@ -782,7 +785,8 @@ class World:
                                 f'C19/ckpt/load-raises/{norm_msg(e)}',
                                 f'load_optiland_file raised {e!r}')
             ref = json.loads(self.fs.files[path])
-            self.saved.append((path, exact))
+            self.saved = [e for e in self.saved if e[0] != path] + \
+                [(path, exact)]
             self.probe('ckpt_file')
         else:
             try:
@@ -870,6 +874,47 @@ class World:
             self.fault('restart_from_' + mode)
             if self.stats['state_changes'] >= 5:
                 self.probe('restart_after_5_edits')
+
+    def op_sample_rt(self, op):
+        """One of the bundled sample lenses (an Optic subclass whose
+        constructor builds the lens), optionally with a field edited, is
+        converted and restored through its own class (Sub.from_dict, as
+        load_obj_from_json(Sub, path) does).  Independent of the history's
+        lens and of the model."""
+        import importlib
+        self.opname = 'ckpt'
+        try:
+            with quiet(), warnings.catch_warnings():
+                warnings.simplefilter('ignore')
+                cls = getattr(importlib.import_module(
+                    'optiland.samples.' + op['module']), op['name'])
+                A = cls()
+                if op.get('radius_trim'):
+                    A.set_radius(f(A.surface_group.radii[1]) *
+                                 op['radius_trim'], 1)
+                d = A.to_dict()
+        except Exception:
+            raise NotApplicable('sample lens cannot be built')
+        try:
+            with quiet(), warnings.catch_warnings():
+                warnings.simplefilter('ignore')
+                B = cls.from_dict(d)
+                d2 = B.to_dict()
+        except Exception as e:
+            raise Violation('sut-exception',
+                            f'C19/ckpt/from_dict-raises/{norm_msg(e)}',
+                            f'{op["name"]}.from_dict(lens.to_dict()) raised '
+                            f'{e!r}')
+        ok, where = same(canon(d2), canon(d))
+        self.stats['oracle_checks'] += 1
+        if not ok:
+            key = '/'.join(x for x in where.split(':')[0].split('/')
+                           if x and not x.isdigit())
+            raise Violation('roundtrip', f'C19/ckpt/dict-differs/{key}',
+                            f'{op["name"]}.from_dict(d).to_dict() differs '
+                            f'from d at {where}')
+        self.compare_behaviour(A, B, op, True)
+        self.probe('sample_lens_round_trip_through_its_class')
 
     def op_reload(self, op):
         """A file written at an earlier checkpoint is loaded once more.  What
@@ -1553,6 +1598,18 @@ def gen_edit(ch, w, sw):
                 'front': ch.pick(['generic', 'lsq']),
                 'target': ch.rounded(ch.uniform(20, 200), 4),
                 'plan': optsim.gen_plan(ch, len(vs), ch.randint(1, 6))}
+    if kind == 'ckpt':
+        sc = ch.side(f'sample-rt:{w.stats["steps"]}')
+        if sc.chance(0.06):
+            mod, name = sc.pick(sut.SAMPLES)
+            op = {'op': 'sample_rt', 'module': mod, 'name': name,
+                  'rays': [[0.0, sc.pick([0.0, 0.7, 1.0]),
+                            sc.rounded(sc.uniform(-0.6, 0.6), 3),
+                            sc.rounded(sc.uniform(-0.6, 0.6), 3), 0]
+                           for _ in range(3)]}
+            if sc.chance(0.4):
+                op['radius_trim'] = sc.rounded(sc.uniform(0.98, 1.02), 4)
+            return op
     if kind == 'ckpt' and w.saved and ch.chance(0.2):
         return {'op': 'reload', 'which': ch.randint(0, len(w.saved) - 1)}
     if kind == 'ckpt':
@@ -1562,12 +1619,20 @@ def gen_edit(ch, w, sw):
             rays.append([0.0, ch.pick([0.0, 0.7, 1.0, -1.0]),
                          ch.rounded(ch.uniform(-1, 1), 3),
                          ch.rounded(ch.uniform(-1, 1), 3), ch.randint(0, 2)])
-        return {'op': 'ckpt', 'mode': ch.pick(['dict', 'file']),
-                'restart': ch.chance(0.3), 'rays': rays}
+        op = {'op': 'ckpt', 'mode': ch.pick(['dict', 'file']),
+              'restart': ch.chance(0.3), 'rays': rays}
+        sc = ch.side(f'ckpt-slot:{w.stats["steps"]}')
+        if op['mode'] == 'file' and sc.chance(0.5):
+            op['slot'] = sc.randint(0, 1)
+        return op
     if kind == 'scale':
         s = ch.rounded(ch.loguniform(0.01, 100), 4)
         if sw.get('last_scale') and ch.chance(0.3):
             s = 1.0 / sw['last_scale']
+        sc = ch.side(f'scale-near-one:{w.stats["steps"]}')
+        if sc.chance(0.06):
+            # thermal-expansion sized factors
+            s = 1.0 + sc.pick([7.08e-06, -2.5e-06, 9.9e-06, 1e-07])
         sw['last_scale'] = s
         rays = [[0.0, ch.pick([0.0, 0.7, 1.0, -1.0]),
                  ch.rounded(ch.uniform(-1, 1), 3),
@@ -1611,6 +1676,12 @@ def swarm(ch, prop, cfg):
         enabled = ['scale'] + ch.subset(kinds[1:], 0.5)
         weights = {k: ch.uniform(0.3, 2.0) for k in enabled}
         weights['scale'] = ch.uniform(2.0, 5.0)
+        sc = ch.side('c07-pickups')
+        if sc.chance(0.3):
+            # lenses that carry pickups (with offsets) when they are scaled
+            enabled += ['pickup', 'update']
+            weights['pickup'] = sc.uniform(0.5, 1.5)
+            weights['update'] = sc.uniform(0.2, 0.8)
     elif prop == 'C19':
         feats = lensgen.pick_features(ch, C19_FEATS, 0.3)
         if 'bsdf' in lensgen.ALL_FEATURES and ch.chance(0.08):
